@@ -4,6 +4,7 @@ from props import shared
 
 PID = "C02"
 LEAN_MODULES = ['BemppVerif.Props.C02', 'BemppVerif.Gen.AsmMatch', 'BemppVerif.Lemmas.KernelCalculus']
+LEAN_MODULES += shared.CTOR_MODULES
 N = "BemppVerif.C02."
 THEOREMS = []
 PARTIAL = {N + "potential_refines_spec": "Green's representation formula for the exact integrals and the convergence of the regular "
@@ -15,6 +16,7 @@ TRUSTED = [
     "theorems are about terms recorded while running the undecorated source of the real functions",
     "hand model Model/Asm.lean tied to the source by the generated AsmMatch theorems (symbolic, one generic configuration)",
     "classical analysis that is used but not formalised is named in PARTIAL",
+    shared.CTOR_TRUSTED,
 ]
 ASSUMPTIONS = ['points at least one element diameter from the surface (oracle)']
 RULE = 'correspondence: compiled assemblers vs their traces at random numeric configurations (Tie B validation); oracle: props/c02_oracle.py'
@@ -29,6 +31,9 @@ def generate(ctx):
                                     "potential_segments_additive")]
                    + shared.asm_theorems("potential_matches") + shared.KERNEL_FACTS["laplace"][:4]
                    + shared.CALCULUS["laplace"][:1])
+    info.update(shared.gen_ctors()[0])
+    THEOREMS.extend(shared.ctor_theorems('laplace_potential')
+                    + [t for t in shared.CTOR_SPEC if t.split('.')[-1] in ('singular_part_and_dtype',)])
     return info
 
 
